@@ -647,6 +647,25 @@ def check_no_self_overwrite(ck, prog, config, clause, unit='src/unzck.c'):
                 if ('opt', key, '!=' if op == '==' else '==') in ts:
                     ts = ts | frozenset(['infeasible'])
                 ts = ts | frozenset([('opt', key, op)])
+            # first character of a local that holds a known literal
+            sl0 = sl
+            while sl.k == 'cast' and sl.a:
+                sl = strip(sl.a[0])
+            if sl.k == 'idx' and strip(sl.a[0]).k == 'var' and const_value(sl.a[1]) == 0 and const_value(r) == 0:
+                names_ = set([strip(sl.a[0]).decl])
+                for _ in range(3):          # a local initialised from another local names the same string
+                    for st_ in walk_stmts(s.fn.body):
+                        if st_.k == 'decl' and st_.var.decl in names_ and st_.e is not None:
+                            iv_ = strip(st_.e)
+                            while iv_ is not None and iv_.k == 'cast' and iv_.a:
+                                iv_ = strip(iv_.a[0])
+                            if iv_ is not None and iv_.k == 'var':
+                                names_.add(iv_.decl)
+                for x in ts:
+                    if isinstance(x, tuple) and x[0] == 'lit' and x[1] in names_:
+                        if (x[2] > 0 and op == '==') or (x[2] == 0 and op == '!='):
+                            ts = ts | frozenset(['infeasible'])
+            sl = sl0
             if sl.k == 'call' and callee_name(sl) in ('strncmp', 'strcmp', 'memcmp') and op == '==' and const_value(r) == 0:
                 if any(x.k == 'var' and x.decl == base.decl for a in sl.a[1:] for x in walk(a)) and \
                         any(strip(a) is not None and strip(a).k == 'str' for a in sl.a[1:]):
@@ -654,6 +673,21 @@ def check_no_self_overwrite(ck, prog, config, clause, unit='src/unzck.c'):
             return ts
 
         def on_assign(s, c2, lhs, rhs, op, value, ts):
+            # string literals held by locals (a suffix chosen earlier), followed through copies
+            if c2.fn is s.fn and strip(lhs) is not None and strip(lhs).k == 'var' and op == '=':
+                d_ = strip(lhs).decl
+                ts = frozenset(x for x in ts if not (isinstance(x, tuple) and x[0] == 'lit' and x[1] == d_))
+                r_ = strip(rhs) if rhs is not None else None
+                while r_ is not None and r_.k == 'cast' and r_.a:
+                    r_ = strip(r_.a[0])
+                if r_ is not None and r_.k == 'str':
+                    lit = (r_.val or '')
+                    lit = lit[1:-1] if len(lit) >= 2 and lit[0] == '"' else lit
+                    ts = ts | frozenset([('lit', d_, len(lit))])
+                elif r_ is not None and r_.k == 'var':
+                    for x in list(ts):
+                        if isinstance(x, tuple) and x[0] == 'lit' and x[1] == r_.decl:
+                            ts = ts | frozenset([('lit', d_, x[2])])
             # base_name[len - k] = '\\0' on the matched edge: the suffix is gone
             if c2.fn is s.fn and 'suffix-matched' in ts:
                 l = strip(lhs)
@@ -672,12 +706,38 @@ def check_no_self_overwrite(ck, prog, config, clause, unit='src/unzck.c'):
                 return None       # the files are open by the time the library is used: the rest is not this rule's
             if n in ('snprintf', 'strcat', 'strncat') and len(call.a) > 2:
                 d = [x for x in walk(call.a[1]) if x.k == 'var' and x.decl in outs]
-                lits = [a for a in call.a[2:] if strip(a) is not None and strip(a).k == 'str' and len(strip(a).val or '') > 2]
-                srcs = [x for a in call.a[2:] for x in walk(a) if x.k == 'var' and x.decl == base.decl]
-                if d and lits and (strip(call.a[1]).k != 'var' or not srcs or True):
-                    # a literal suffix written behind the copied base name
-                    if strip(call.a[1]).k != 'var':
-                        ts = ts | frozenset(['differs'])
+                # text that is certainly appended: a literal without directives, the literal part of a format, or a
+                # local that holds a non-empty literal on this path
+                texts = []
+                for a in call.a[2:]:
+                    sa = strip(a)
+                    while sa is not None and sa.k == 'cast' and sa.a:
+                        sa = strip(sa.a[0])
+                    if sa is None:
+                        continue
+                    if sa.k == 'str':
+                        import re as _re
+                        lit = (sa.val or '')
+                        lit = lit[1:-1] if len(lit) >= 2 and lit[0] == '"' else lit
+                        plain = _re.sub(r'%[-0-9.*lhz]*[sdiuxXcf]', '', lit)
+                        if plain:
+                            texts.append(plain)
+                    elif sa.k == 'var':
+                        names_ = set([sa.decl])
+                        for _ in range(3):
+                            for st_ in walk_stmts(s.fn.body):
+                                if st_.k == 'decl' and st_.var.decl in names_ and st_.e is not None:
+                                    iv_ = strip(st_.e)
+                                    while iv_ is not None and iv_.k == 'cast' and iv_.a:
+                                        iv_ = strip(iv_.a[0])
+                                    if iv_ is not None and iv_.k == 'var':
+                                        names_.add(iv_.decl)
+                        for x in ts:
+                            if isinstance(x, tuple) and x[0] == 'lit' and x[1] in names_ and x[2] > 0:
+                                texts.append('<%s>' % sa.op)
+                if d and texts and strip(call.a[1]).k != 'var':
+                    # a non-empty suffix written behind the copied base name
+                    ts = ts | frozenset(['differs'])
             if n == 'open' and len(call.a) > 2:
                 fl = const_value(call.a[2])
                 p = strip(call.a[1])
